@@ -14,6 +14,9 @@ CONSTANTS
   PerClass = 2
   ClosedBoost = 1
   SampleRem = 0
+  MixInts = {}
+  MixDivs = {}
+  MixNums = {}
   NRand = 0
   RandDepth = 0
   LightLemmas = TRUE
